@@ -62,6 +62,9 @@ class Flattener:
         self.inlined = []
         self.root = None
         self._nested = {}
+        # helpers that return from inside their loops are inlined too when a module-level function (main) is
+        # flattened: option parsing split into `_parse_x(args)` functions returns its exit code from the loops
+        self.loop_returns = func.cls is None
 
     # ------------------------------------------------------------------ which calls
     def callee(self, call, stack):
@@ -110,7 +113,7 @@ class Flattener:
                 if ret_in_loop(c, inloop or isinstance(n, (ast.For, ast.While))):
                     return True
             return False
-        if ret_in_loop(g.node, False):
+        if ret_in_loop(g.node, False) and not self.loop_returns:
             return None
         params = g.bound_params() if g.cls is not None else list(g.params)
         given = len(call.args) + len(call.keywords)
@@ -208,6 +211,11 @@ class Flattener:
             for n in ast.walk(s):
                 if isinstance(n, ast.Name) and n.id in rename:
                     n.id = rename[n.id]
+                elif isinstance(n, ast.Lambda):
+                    # (a lambda parameter that shares its name with a local of the helper is renamed with it)
+                    for a_ in n.args.posonlyargs + n.args.args + n.args.kwonlyargs:
+                        if a_.arg in rename:
+                            a_.arg = rename[a_.arg]
         pre = []
 
         def assign(name, value, like):
@@ -271,6 +279,13 @@ class Flattener:
                         put(val)
             for s in body:
                 put(s)
+        if self.loop_returns:
+            # loops over tables of rows are written out before the returns are rewritten (a `return` inside the
+            # loop is still a return in every copy; afterwards it would be a break of a loop that no longer exists)
+            body = self._unroll_tables(body)
+            # a table row handed to the helper: `name, cls, lo, hi, tagged = ('arc', Arc, 5, 6, (6,))` - the cells
+            # that are constants are written where they are read
+            body = _propagate_row_constants(pre, body)
         res = '__r%d' % k
         rets = [n for s in body for n in ast.walk(s) if isinstance(n, ast.Return)]
         tail_only = len(rets) == 1 and body and rets[0] is body[-1]
@@ -280,24 +295,46 @@ class Flattener:
             stmts = body[:-1] + [assign(res, rets[0].value if rets[0].value is not None else ast.Constant(value=None), rets[0])]
         else:
             # early returns: run the body once inside a one-element loop, `return v` -> `__r = v; break`
-            def rewrite(lst):
+            done = '__done%d' % k
+            uses_flag = [False]
+
+            def rewrite(lst, inloop=False):
                 out = []
                 for s in lst:
                     if isinstance(s, ast.Return):
                         out.append(assign(res, s.value if s.value is not None else ast.Constant(value=None), s))
+                        if inloop:
+                            # a return inside a loop of the helper: leave that loop with the flag set; every
+                            # enclosing loop of the helper is left by the `if __done: break` placed after it
+                            uses_flag[0] = True
+                            out.append(assign(done, ast.Constant(value=True), s))
                         b = ast.Break()
                         ast.copy_location(b, s)
                         out.append(b)
                         continue
+                    if isinstance(s, (ast.For, ast.While)):
+                        if any(isinstance(x, ast.Return) for x in ast.walk(s)):
+                            s.body = rewrite(s.body, True)
+                            s.orelse = rewrite(s.orelse, inloop)
+                            out.append(s)
+                            t = ast.If(test=ast.Name(id=done, ctx=ast.Load()), body=[ast.Break()], orelse=[])
+                            for x in ast.walk(t):
+                                ast.copy_location(x, s)
+                            out.append(t)
+                            continue
+                        out.append(s)
+                        continue
                     for fld in ('body', 'orelse', 'finalbody'):
-                        if hasattr(s, fld) and isinstance(getattr(s, fld), list) and not isinstance(s, (ast.For, ast.While)):
-                            setattr(s, fld, rewrite(getattr(s, fld)))
+                        if hasattr(s, fld) and isinstance(getattr(s, fld), list):
+                            setattr(s, fld, rewrite(getattr(s, fld), inloop))
                     if isinstance(s, ast.Try):
                         for h in s.handlers:
-                            h.body = rewrite(h.body)
+                            h.body = rewrite(h.body, inloop)
                     out.append(s)
                 return out
             inner = rewrite(body)
+            if uses_flag[0]:
+                inner.insert(0, assign(done, ast.Constant(value=False), call))
             if not inner or not isinstance(inner[-1], ast.Break):
                 inner.append(assign(res, ast.Constant(value=None), call))
             loop = ast.For(target=ast.Name(id='__once%d' % k, ctx=ast.Store()),
@@ -313,6 +350,23 @@ class Flattener:
         name = ast.Name(id=res, ctx=ast.Load())
         ast.copy_location(name, call)
         return stmts, name
+
+    def _unroll_tables(self, stmts):
+        out = []
+        for st in stmts:
+            if isinstance(st, ast.For) and isinstance(st.iter, ast.Name) and isinstance(st.target, ast.Name):
+                des = self._desugar(st)
+                if des is not None:
+                    out += self._unroll_tables(des)
+                    continue
+            for fld in ('body', 'orelse', 'finalbody'):
+                if hasattr(st, fld) and isinstance(getattr(st, fld), list) and not isinstance(st, (ast.FunctionDef, ast.ClassDef)):
+                    setattr(st, fld, self._unroll_tables(getattr(st, fld)))
+            if isinstance(st, ast.Try):
+                for h in st.handlers:
+                    h.body = self._unroll_tables(h.body)
+            out.append(st)
+        return out
 
     # ------------------------------------------------------------------ statements
     def block(self, stmts, stack):
@@ -352,6 +406,19 @@ class Flattener:
                     if isinstance(par, ast.Assign) and len(par.targets) == 1 and par.targets[0] is binds[0] and \
                        isinstance(par.value, ast.Tuple) and it.id not in self.func.all_params:
                         return literal_items(par.value)
+            if isinstance(it, ast.Name) and getattr(self, 'root', None) is not None and it.id not in self.func.all_params and \
+               not any(isinstance(x_, ast.Name) and x_.id == it.id and not isinstance(x_.ctx, ast.Load) for x_ in ast.walk(self.root)):
+                # a module-level table: bound once at the top level of the module to a tuple of rows
+                tops = [t_ for t_ in self.func.module.tree.body if isinstance(t_, ast.Assign) and len(t_.targets) == 1
+                        and isinstance(t_.targets[0], ast.Name) and t_.targets[0].id == it.id]
+                others = [t_ for t_ in ast.walk(self.func.module.tree) if isinstance(t_, ast.Name) and t_.id == it.id
+                          and not isinstance(t_.ctx, ast.Load)]
+                if len(tops) == 1 and len(others) == 1 and isinstance(tops[0].value, ast.Tuple):
+                    def cell(x_):
+                        return plain(x_) or (isinstance(x_, ast.Tuple) and all(isinstance(y_, ast.Constant) for y_ in x_.elts))
+                    tbl = tops[0].value
+                    if tbl.elts and all(isinstance(r_, ast.Tuple) and all(cell(x_) for x_ in r_.elts) for r_ in tbl.elts):
+                        return [_clone(r_) for r_ in tbl.elts]
             if isinstance(it, (ast.Tuple, ast.List)) and all(plain(e) for e in it.elts):
                 return list(it.elts)
             if isinstance(it, (ast.Tuple, ast.List)) and it.elts and all(
@@ -448,6 +515,22 @@ class Flattener:
                     nb = b
                     for t_, e_ in zip(st.target.elts, row.elts):
                         nb = put(nb, t_.id, e_)
+                    ast.copy_location(nb, b)
+                    ast.fix_missing_locations(nb)
+                    out.append(nb)
+            return out
+        if isinstance(st, ast.For) and not st.orelse and isinstance(st.target, ast.Name) and isinstance(st.iter, ast.Name) and \
+           items_ is not None and 1 <= len(items_) <= 4 and all(isinstance(i_, ast.Tuple) for i_ in items_) and \
+           not _own_break_continue(st) and \
+           not any(isinstance(n, ast.Name) and n.id == st.target.id and isinstance(n.ctx, ast.Store)
+                   for b in st.body for n in ast.walk(b)):
+            # for row in TABLE (a module-level / local table of rows): the body once per row, `row` written out;
+            # `row[i]` is the cell
+            out = []
+            for row in items_:
+                for b in st.body:
+                    nb = put(b, st.target.id, row)
+                    nb = _fold_literal_index(nb)
                     ast.copy_location(nb, b)
                     ast.fix_missing_locations(nb)
                     out.append(nb)
@@ -597,6 +680,79 @@ def _scalarise_tables(node):
         rec(y)
         return y
     rec(node)
+
+
+def _propagate_row_constants(pre, body):
+    """names bound exactly once (in pre + body) by `a, b = (<literals>)` or `a = <tuple literal>; x, y = a` to a
+    number / string / tuple of constants are replaced by the constant in the body"""
+    stmts = list(pre) + list(body)
+    stores = {}
+    for s in stmts:
+        for n in ast.walk(s):
+            if isinstance(n, ast.Name) and isinstance(n.ctx, (ast.Store, ast.Del)):
+                stores[n.id] = stores.get(n.id, 0) + 1
+            elif isinstance(n, (ast.AugAssign,)) and isinstance(n.target, ast.Name):
+                stores[n.target.id] = stores.get(n.target.id, 0) + 1
+
+    def const(v):
+        if isinstance(v, ast.Constant) and isinstance(v.value, (int, float, str)) and not isinstance(v.value, bool):
+            return True
+        if isinstance(v, ast.UnaryOp) and isinstance(v.op, ast.USub) and isinstance(v.operand, ast.Constant):
+            return True
+        return isinstance(v, ast.Tuple) and v.elts and all(isinstance(e, ast.Constant) for e in v.elts)
+    tup = {}
+    env = {}
+    for s in stmts:         # top level only: bound before anything else of the helper runs
+        if isinstance(s, ast.Assign) and len(s.targets) == 1:
+            t, v = s.targets[0], s.value
+            if isinstance(v, ast.Name) and v.id in tup:
+                v = tup[v.id]
+            if isinstance(t, ast.Name) and isinstance(v, ast.Tuple) and stores.get(t.id) == 1:
+                tup[t.id] = v
+            if isinstance(t, ast.Tuple) and isinstance(v, ast.Tuple) and len(t.elts) == len(v.elts):
+                for te, ve in zip(t.elts, v.elts):
+                    if isinstance(te, ast.Name) and stores.get(te.id) == 1 and const(ve):
+                        env[te.id] = ve
+    if not env:
+        return body
+
+    def rec(x):
+        for fld, val in ast.iter_fields(x):
+            if isinstance(val, list):
+                for i_, y in enumerate(val):
+                    if isinstance(y, ast.AST):
+                        val[i_] = fix(y)
+            elif isinstance(val, ast.AST):
+                setattr(x, fld, fix(val))
+        return x
+
+    def fix(y):
+        if isinstance(y, ast.Name) and isinstance(y.ctx, ast.Load) and y.id in env:
+            return ast.copy_location(_clone(env[y.id]), y)
+        return rec(y)
+    return [fix(s) for s in body]
+
+
+def _fold_literal_index(node):
+    """(a, b, c)[1] -> b  (after a table row was written out in place of the loop variable)"""
+    def rec(x):
+        for fld, val in ast.iter_fields(x):
+            if isinstance(val, list):
+                for i_, y in enumerate(val):
+                    if isinstance(y, ast.AST):
+                        val[i_] = fix(y)
+            elif isinstance(val, ast.AST):
+                setattr(x, fld, fix(val))
+        return x
+
+    def fix(y):
+        y = rec(y)
+        if isinstance(y, ast.Subscript) and isinstance(y.value, ast.Tuple) and isinstance(y.slice, ast.Constant) and \
+                isinstance(y.slice.value, int) and not isinstance(y.slice.value, bool) and isinstance(y.ctx, ast.Load) and \
+                -len(y.value.elts) <= y.slice.value < len(y.value.elts):
+            return ast.copy_location(y.value.elts[y.slice.value], y)
+        return y
+    return fix(node)
 
 
 def _own_break_continue(loop):
